@@ -40,6 +40,11 @@ func (c *containerServer) handleOpen(open []OpenCmd) error {
 	if len(open) == 0 {
 		return c.sendErrorReply("open: no open parameter received")
 	}
+	// a single message carries at most SCM_MAX_FD descriptors, sending more fails in sendmsg and ends the container
+	const maxOpenFiles = 253
+	if len(open) > maxOpenFiles {
+		return c.sendErrorReply("open: too many files in one request: %d > %d", len(open), maxOpenFiles)
+	}
 
 	// open files
 	fds := make([]int, 0, len(open))
